@@ -161,7 +161,9 @@ def sow(crop, w, shuffle_at_sow=None, spelling="dict", verbosity=0, **kw):
     consts = dict(w["constants"]) or None
     if w["mode"] == "grid" or w.get("via") == "sow_combos":
         extra = {}
-        if shuffle_at_sow is not None:
+        if shuffle_at_sow == "keep":
+            extra["shuffle"] = None           # spelled out: "no new setting", the crop keeps the one it was constructed with
+        elif shuffle_at_sow is not None:
             extra["shuffle"] = shuffle_at_sow
         crop.sow_combos(gens.spell_combos(combos, spelling), cases=[dict(c) for c in w["cases"]] if w["cases"] else None,
                         constants=consts, verbosity=verbosity, **extra, **kw)
